@@ -258,3 +258,272 @@ Proof.
   intros HP Ha Ho Hin. pose proof (op_top_only s a fr rest HP Ha Ho) as Hz.
   destruct Hin as [Hin|Hin]; pose proof (cntf_zero_all opfr rest Hz _ Hin) as H; done.
 Qed.
+
+Lemma tw_cellstep s s' c f : toks s' = toks s -> np (is_unpark c) s <= np (is_unpark c) s' ->
+  np (is_wake (WTask c)) s <= np (is_wake (WTask c)) s' ->
+  (cell s c f -> cell s' c f \/ posb (np (is_wake (WTask c)) s') = true) -> tw s c f = true -> tw s' c f = true.
+Proof.
+  intros Ht Hu Hw Hc. apply tw_trans; [by rewrite (tokb_toks s s' c Ht)| | |done].
+  - intros H. left. by eapply posb_mono.
+  - intros H. left. by eapply posb_mono.
+Qed.
+Lemma cell_in_range s c f : cell s c f -> f < length s.(futs).
+Proof. intros [_ H]. unfold getf in H. destruct (futs s !! f) eqn:E; [by eapply lookup_lt_Some|done]. Qed.
+Lemma cell_setf_ne s f x c fq : fq <> f -> cell s c fq -> cell (setf s f x) c fq.
+Proof. intros Hne. unfold cell, getf, setf; cbn. by rewrite list_lookup_insert_ne. Qed.
+Lemma cell_setf_keep s f x c : x.(res) = (getf s f).(res) -> x.(fwaker) = (getf s f).(fwaker) -> cell s c f -> cell (setf s f x) c f.
+Proof. intros H1 H2 Hc. pose proof (cell_in_range _ _ _ Hc). unfold cell. rewrite getf_setf_eq by done. rewrite H1, H2. exact Hc. Qed.
+Lemma cell_alloc s (s' : state) l c f : s'.(futs) = s.(futs) ++ l -> cell s c f -> cell s' c f.
+Proof. intros H Hc. pose proof (cell_in_range _ _ _ Hc). unfold cell. by rewrite (getf_alloc_lt s s' l f H). Qed.
+Lemma tw_unpark s a c0 rest c f : stacks s !! a = Some (FUnpark c0 :: rest) -> c < length (stacks s) ->
+  tw s c f = true -> tw (setstack (settoken s c0 true) a rest) c f = true.
+Proof.
+  intros Hst Hlt. set (s' := setstack _ _ _).
+  assert (Hs : stacks s' = <[a := rest]> (stacks s)) by (subst s'; solve_stacks).
+  pose proof (np_upd (is_unpark c) s s' a _ _ Hst Hs) as U1. pose proof (np_upd (is_wake (WTask c)) s s' a _ _ Hst Hs) as U2.
+  cbn [cntf is_unpark is_wake] in U1, U2.
+  assert (Htk : tokb s' c = if decide (c = c0) then true else tokb s c).
+  { subst s'. rewrite tokb_setstack. destruct (decide (c = c0)) as [->|Hne]; [by apply tokb_set_eq|by apply tokb_set_ne]. }
+  apply tw_trans.
+  - rewrite Htk. by destruct (decide (c = c0)).
+  - rewrite Htk, !posb_true. case_bool_decide; destruct (decide (c = c0)); simplify_eq; first [by right|left; lia].
+  - rewrite !posb_true. lia.
+  - intros Hc. left. exact (cell_same s s' c f eq_refl Hc).
+Qed.
+
+Section Pres3.
+  Context (T : ftables).
+  Lemma step_task_tw s a s' : Inv_own s -> Inv_fut s -> Inv_op s ->
+    (forall c st fr, stacks s !! c = Some st -> fr ∈ st -> rn_ok s fr = true) ->
+    (forall c st, stacks s !! c = Some st -> twf s c None st = true) ->
+    step T s a = Some s' -> forall c st, stacks s' !! c = Some st -> twf s' c None st = true.
+  Proof.
+    intros HO HF HP I2 I1 Hstep. step_split Hstep Ea Est.
+    all: try discriminate Hstep.
+    all: injection Hstep as <-.
+    all: pose proof (stacks_lookup _ _ _ Ea) as Hst; rewrite Est in Hst.
+    all: pose proof (if_poll _ HF _ _ Hst) as Hpo.
+    all: assert (Hok0 := I1 a _ Hst).
+    all: pop_cont_split.
+    all: try match goal with k : kont |- _ => destruct k end.
+    (* a poll frame sits on its continuation: the no-continuation branch of pop_cont is impossible *)
+    all: try (match goal with Hnc : nocont ?r |- _ => exfalso; cbn [pollall adjok pollfam] in Hpo; apply andb_true_iff in Hpo as [Hadj _];
+              destruct r as [|[] ?]; try done end).
+    all: match goal with |- forall c st, stacks ?s1 !! c = Some st -> _ => eapply (twf_update s s1 a _ _ Hst ltac:(solve_stacks)); [ | |exact I1] end.
+    all: try match goal with |- context [opt_wake ?o] => destruct o eqn:Eo end.
+    all: cbn [opt_wake app].
+    (* other actors, steps that only add to what they look at *)
+    all: try (lazymatch goal with |- forall c f, c <> _ -> _ =>
+              intros cq fq Hne Haw Htw; apply (tw_trans s); [ | | | |exact Htw];
+              [ intros Ht; lazymatch goal with |- tokb ?s1 _ = true => rewrite (tokb_toks s s1 cq ltac:(solve_toks)); exact Ht end
+              | intros Hp; left; eapply posb_mono; [eapply np_mono; [exact Hst|solve_stacks|cnt_le]|exact Hp]
+              | intros Hp; left; eapply posb_mono; [eapply np_mono; [exact Hst|solve_stacks|cnt_le]|exact Hp]
+              | intros Hc; left; lazymatch goal with |- cell ?s1 _ _ => exact (cell_same s s1 cq fq eq_refl Hc) end ] end).
+    (* own stack, the await continuation was popped (Ready): nothing below it awaits *)
+    all: try (lazymatch goal with |- twf _ _ None _ = true =>
+              lazymatch goal with Hst : stacks _ !! _ = Some (_ :: ?xc :: ?rc) |- _ =>
+                apply twf_noaw, isaw_opfr; destruct (HP a _ Hst) as [_ Hcnt]; cbn in Hcnt |- *; lia end end).
+    (* own stack, FAwRet -> FPark *)
+    all: try (lazymatch goal with Hst : stacks _ !! _ = Some (FAwRet ?f :: _) |- twf ?s1 _ None _ = true =>
+              cbn [twf inprog_for orb] in Hok0 |- *; rewrite (tw_same s s1 a f); [exact Hok0|solve_toks|reflexivity
+                |by eapply np_same; [exact Hst|solve_stacks|]|by eapply np_same; [exact Hst|solve_stacks|] ] end).
+    (* own stack, the poll settles on Pending and the task waker is stored: FSFpoll (Wait arm), FDQstore, FDQempty1 *)
+    all: try (lazymatch goal with |- twf ?s1 _ None _ = true =>
+              lazymatch goal with
+              | Hst : stacks _ !! _ = Some (FSFpoll ?f :: ?r0) |- _ => idtac
+              | Hst : stacks _ !! _ = Some (FDQstore ?f _ :: ?r0) |- _ => idtac
+              | Hst : stacks _ !! _ = Some (FDQempty1 ?f :: ?r0) |- _ => idtac end;
+              lazymatch goal with Hst : stacks _ !! _ = Some (?x :: ?r0) |- _ =>
+                lazymatch eval cbn in (pollfam x) with Some ?f =>
+                  match goal with |- context [setf] => idtac end;
+                  assert (Hrn : (getf s f).(res) = FNone) by
+                    (first [ eassumption | pose proof (I2 a _ _ Hst ltac:(left)) as Hx; cbn in Hx; by apply bool_decide_eq_true in Hx ]);
+                  cbn [pollall adjok pollfam] in Hpo; apply andb_true_iff in Hpo as [Hadj Hpo];
+                  destruct r0 as [|y r1]; [done|]; destruct y; try done; cbn [iscont] in Hadj; apply bool_decide_eq_true in Hadj; subst;
+                  [ (* FAwRet f *) cbn [twf]; apply orb_true_iff; right; apply cell_tw;
+                    assert (Hlt : f < length (futs s)) by (eapply (wf_in_range s a _ (FAwRet f) f HF Hst); [right; left|cbn; by apply bool_decide_eq_true]);
+                    eapply cell_futs; [|apply (cell_store s f a Hlt Hrn)]; reflexivity
+                  | (* FDropRet f k *) cbn [twf]; apply twf_noaw, isaw_opfr; destruct (HP a _ Hst) as [_ Hcnt]; cbn in Hcnt; lia ] end end end).
+    (* own stack, fire: the wake frames are pushed on top *)
+    all: try (lazymatch goal with Hst : stacks _ !! _ = Some (FFire ?e0 :: _) |- twf ?s1 _ None _ = true =>
+              cbn [twf] in Hok0; eapply (twf_app_chain s1 a None (Some (FFire e0))); [apply chain_wake_frames|done|];
+              eapply (fun Hp Hs => twf_change s s1 a _ _ _ Hp Hs Hok0); [done|];
+              intros fq _ Htw; apply (tw_trans s); [ | | | |exact Htw];
+              [ intros Ht; rewrite (tokb_toks s s1 a ltac:(solve_toks)); exact Ht
+              | intros Hp; left; eapply posb_mono; [eapply np_mono; [exact Hst|solve_stacks|rewrite cntf_app; cbn; lia]|exact Hp]
+              | intros Hp; left; eapply posb_mono; [eapply np_mono; [exact Hst|solve_stacks|rewrite cntf_app; cbn; lia]|exact Hp]
+              | intros Hc; left; exact (cell_same s s1 a fq eq_refl Hc) ] end).
+    (* own stack, generic: the frame above the first await frame changes, the state changes *)
+    all: try (lazymatch goal with |- twf _ _ None _ = true =>
+              try match goal with |- context [opt_wake ?o] => destruct o eqn:Eo end;
+              cbn [twf] in Hok0; cbn [twf app opt_wake ret_ready ret_pending];
+              try (cbn [inprog_for pollprog]; rewrite ?bool_decide_true by done; reflexivity);
+              eapply (fun Hp Hs => twf_change s _ a _ _ _ Hp Hs Hok0) end).
+    all: try (lazymatch goal with |- forall f, inprog_for _ f = true -> _ => intros ?f; cbn [inprog_for pollprog]; done end).
+    (* stability of [tw s c f], result cells and tokens untouched: arithmetic on the frame counts *)
+    all: try (lazymatch goal with
+              | |- forall f, FAwRet f ∈ _ \/ _ -> tw _ _ _ = true -> tw ?s1 _ _ = true => intros fq _ Htw; pose (cq := a)
+              | |- forall c f, c <> _ -> awaits _ c f -> tw _ c f = true -> tw ?s1 c f = true => intros cq fq _ _ Htw end;
+              lazymatch goal with |- tw ?s1 _ _ = true =>
+                assert (Hs1 : stacks s1 = <[a := _]> (stacks s)) by solve_stacks;
+                pose proof (np_upd (is_unpark cq) s s1 a _ _ Hst Hs1) as U1;
+                pose proof (np_upd (is_wake (WTask cq)) s s1 a _ _ Hst Hs1) as U2;
+                cbn [cntf is_unpark is_wake app opt_wake] in U1, U2; rewrite ?cntf_app, ?cntf_wake_frames in U1, U2 by done;
+                cbn [cntf is_unpark is_wake app] in U1, U2; try subst cq;
+                apply (tw_trans s); [ | | | |exact Htw];
+                [ intros Ht; rewrite (tokb_toks s s1 _ ltac:(solve_toks)); exact Ht
+                | rewrite !posb_true; repeat case_bool_decide; simplify_eq; lia
+                | rewrite !posb_true; repeat case_bool_decide; simplify_eq; lia
+                | intros Hc; left; exact (cell_same s s1 _ fq eq_refl Hc) ] end).
+    (* stability of [tw s c f] when result cells change *)
+    all: try (lazymatch goal with
+              | |- forall f, FAwRet f ∈ _ \/ _ -> tw _ _ _ = true -> tw ?s1 _ _ = true => intros fq Hinr Htw; pose (cq := a); assert (Hown : cq = a) by reflexivity
+              | |- forall c f, c <> _ -> awaits _ c f -> tw _ c f = true -> tw ?s1 c f = true => intros cq fq Hne Haw Htw end;
+              lazymatch goal with |- tw ?s1 _ _ = true =>
+                assert (Hs1 : stacks s1 = <[a := _]> (stacks s)) by solve_stacks;
+                pose proof (np_upd (is_unpark cq) s s1 a _ _ Hst Hs1) as U1;
+                pose proof (np_upd (is_wake (WTask cq)) s s1 a _ _ Hst Hs1) as U2;
+                cbn [cntf is_unpark is_wake app opt_wake] in U1, U2; rewrite ?cntf_app, ?cntf_wake_frames in U1, U2 by done;
+                cbn [cntf is_unpark is_wake app] in U1, U2;
+                apply (tw_cellstep s s1 cq fq); [solve_toks|repeat case_bool_decide; simplify_eq; lia|repeat case_bool_decide; simplify_eq; lia| |exact Htw];
+                intros Hc;
+                first [ left; eapply cell_alloc; [reflexivity|exact Hc]
+                      | match goal with |- context [setf ?s0 ?f ?x] =>
+                          destruct (decide (fq = f)) as [->|Hnf];
+                          [ first [ (* take: the cell held a result *) destruct Hc as [Hc1 _]; rewrite ?getf_addlog' in *; congruence
+                                  | (* signal *) right; destruct Hc as [_ Hc2]; rewrite Hc2 in *; simplify_eq; apply posb_true;
+                                    rewrite bool_decide_true in U2 by done; lia
+                                  | (* store by the awaiting actor itself *) left; subst cq; eapply cell_futs; [reflexivity|];
+                                    apply cell_store; [by eapply cell_in_range|by destruct Hc]
+                                  | (* store by somebody else: two consumers *) exfalso; destruct (awaits_wf _ _ _ Haw) as (sc & Hsc & Hwc);
+                                    eapply (two_consumers s a cq _ sc f HF); [congruence|exact Hst|exact Hsc| |exact Hwc];
+                                    apply poller_wf; [exact (if_poll _ HF _ _ Hst)|reflexivity] ]
+                          | left; eapply cell_futs; [reflexivity|]; by apply cell_setf_ne ] end ] end).
+    (* tokens *)
+    all: try (lazymatch goal with Hst : stacks _ !! _ = Some (FROpark _ :: _) |- forall f, FAwRet f ∈ _ \/ _ -> _ =>
+              intros fq Hin _; exfalso; eapply aw_in_rest_absurd; [exact HP|exact Hst|reflexivity|exact Hin] end).
+    all: try (lazymatch goal with Hst : stacks _ !! _ = Some (FUnpark _ :: _) |- _ =>
+              first [ intros fq _ Htw; apply (tw_unpark s a _ _ a fq Hst); [by eapply lookup_lt_Some|exact Htw]
+                    | intros cq fq _ (sc & Hsc & _) Htw; apply (tw_unpark s a _ _ cq fq Hst); [by eapply lookup_lt_Some|exact Htw] ] end).
+    all: try (intros cq fq Hne Haw Htw; apply (tw_trans s); [ | | | |exact Htw];
+              [ rewrite tokb_setstack, tokb_set_ne by done; done
+              | intros Hp; left; eapply posb_mono; [eapply np_mono; [exact Hst|solve_stacks|cnt_le]|exact Hp]
+              | intros Hp; left; eapply posb_mono; [eapply np_mono; [exact Hst|solve_stacks|cnt_le]|exact Hp]
+              | intros Hc; left; lazymatch goal with |- cell ?s1 _ _ => exact (cell_same s s1 cq fq eq_refl Hc) end ]).
+  Qed.
+End Pres3.
+(* ---------- clause 4: a caller blocked in sync_background still has its job somewhere ---------- *)
+Lemma cntb_app c a b : cntb c (a ++ b) = cntb c a + cntb c b. Proof. induction a; cbn; lia. Qed.
+Lemma sb_update s s' a old new :
+  stacks s !! a = Some old -> stacks s' = <[a := new]> (stacks s) ->
+  sb_ok s' a new = true ->
+  (forall c, c <> a -> c < length (stacks s) -> (sresb s c = true -> sresb s' c = true) /\ (posb (nsb c s) = true -> posb (nsb c s') = true \/ sresb s' c = true)) ->
+  (forall c st, stacks s !! c = Some st -> sb_ok s c st = true) ->
+  forall c st, stacks s' !! c = Some st -> sb_ok s' c st = true.
+Proof.
+  intros Ha Hs Hnew Hstab HI c st Hc. rewrite Hs in Hc. destruct (decide (c = a)) as [->|Hne].
+  - rewrite list_lookup_insert in Hc by (by eapply lookup_lt_Some). by injection Hc as <-.
+  - rewrite list_lookup_insert_ne in Hc by done. pose proof (HI c st Hc) as H. destruct (Hstab c Hne ltac:(by eapply lookup_lt_Some)) as [H1 H2].
+    unfold sb_ok in *. rewrite !orb_true_iff in *. destruct H as [[H|H]|H]; [by left; left|left; right; by apply H1|].
+    destruct (H2 H); [by right|left; by right].
+Qed.
+Lemma sresb_sress (s s' : state) c : sress s' = sress s -> sresb s' c = sresb s c.
+Proof. intros H. unfold sresb. by rewrite H. Qed.
+Lemma sresb_set_ne s c c0 b : c <> c0 -> sresb (setsres s c0 b) c = sresb s c.
+Proof. intros H. unfold sresb. by rewrite sress_setsres, list_lookup_insert_ne. Qed.
+Lemma sresb_set_true s c : c < length (stacks s) -> sresb (setsres s c true) c = true.
+Proof.
+  intros H. unfold sresb. rewrite sress_setsres, list_lookup_insert; [done|]. unfold sress; rewrite fmap_length. unfold stacks in H. by rewrite fmap_length in H.
+Qed.
+Lemma sresb_setstack s a st c : sresb (setstack s a st) c = sresb s c.
+Proof. unfold sresb. by rewrite sress_setstack. Qed.
+Lemma sb_mono s s' c old new : cntf is_sbwait new <= cntf is_sbwait old ->
+  (sresb s c = true -> sresb s' c = true) -> (posb (nsb c s) = true -> posb (nsb c s') = true \/ sresb s' c = true) ->
+  sb_ok s c old = true -> sb_ok s' c new = true.
+Proof.
+  intros Hn H1 H2. unfold sb_ok. rewrite !orb_true_iff, !negb_true_iff. intros [[H|H]|H].
+  - left; left. destruct (cntf is_sbwait old) eqn:E; [|done]. by assert (cntf is_sbwait new = 0) as -> by lia.
+  - left; right. by apply H1.
+  - destruct (H2 H); [by right|left; by right].
+Qed.
+Lemma jobs_setsres s c b : jobs (setsres s c b) = jobs s. Proof. done. Qed.
+Lemma stacks_len_addlog s l : length (stacks (addlog s l)) = length (stacks s). Proof. done. Qed.
+Lemma stacks_len_setf s f c : length (stacks (setf s f c)) = length (stacks s). Proof. done. Qed.
+
+Section Pres4.
+  Context (T : ftables).
+  Lemma step_task_sb s a s' : Inv_op s ->
+    (forall c st, stacks s !! c = Some st -> sb_ok s c st = true) ->
+    step T s a = Some s' -> forall c st, stacks s' !! c = Some st -> sb_ok s' c st = true.
+  Proof.
+    intros HP I4 Hstep. step_split Hstep Ea Est.
+    all: try discriminate Hstep.
+    all: injection Hstep as <-.
+    all: pop_cont_split.
+    all: pose proof (stacks_lookup _ _ _ Ea) as Hst; rewrite Est in Hst.
+    all: try match goal with k : kont |- _ => destruct k end.
+    all: assert (Hok0 := I4 a _ Hst).
+    all: destruct (HP a _ Hst) as [_ Hcnt].
+    all: match goal with |- forall c st, stacks ?s1 !! c = Some st -> _ => eapply (sb_update s s1 a _ _ Hst ltac:(solve_stacks)); [ | |exact I4] end.
+    (* the stepping actor pushes its own sync job *)
+    all: try (lazymatch goal with |- sb_ok ?s1 _ (FSDloop :: _) = true =>
+              lazymatch goal with Hst : stacks _ !! _ = Some (FSDpush _ _ :: _) |- _ =>
+                unfold sb_ok; cbn in Hcnt |- *;
+                assert (cntf is_sbwait rest = 0) as -> by (assert (cntf is_sbwait rest <= cntf opfr rest) by (apply cntf_le; by intros []); lia); done end end).
+    all: try (lazymatch goal with Hst : stacks _ !! _ = Some (FSBpush _ _ :: _) |- sb_ok ?s1 _ _ = true =>
+              unfold sb_ok; apply orb_true_iff; right; apply posb_true; unfold nsb;
+              cbn -[cntb np]; rewrite cntb_app; cbn; rewrite bool_decide_true by done; lia end).
+    (* both the stepping actor (cq = a) and the others: the same three observations *)
+    all: lazymatch goal with
+         | |- sb_ok ?s1 _ ?new = true => pose (cq := a); eapply (fun H1 H2 H3 => sb_mono s s1 cq _ new H1 H2 H3 Hok0)
+         | |- forall c, c <> _ -> _ => intros cq Hne Hlt; split end.
+    (* no new FSBwait frame *)
+    all: try (lazymatch goal with |- cntf is_sbwait _ <= cntf is_sbwait _ => cbn; rewrite ?cntf_app, ?cntf_opt_wake, ?cntf_wake_frames by done; cbn; lia end).
+    (* the result flag of cq *)
+    all: try (lazymatch goal with |- sresb _ _ = true -> sresb ?s1 _ = true =>
+              first [ rewrite (sresb_sress s s1 cq ltac:(rewrite ?sress_setstack, ?sress_settoken; reflexivity)); done
+                    | rewrite sresb_setstack; intros Hs; lazymatch goal with |- sresb (setsres _ ?c0 true) _ = true =>
+                        destruct (decide (cq = c0)) as [Hx|Hx]; [rewrite Hx; apply sresb_set_true; rewrite <- Hx; first [by (subst cq; eapply lookup_lt_Some)|idtac]|rewrite sresb_set_ne by done; exact Hs] end ] end).
+    (* the job of cq *)
+    all: try (lazymatch goal with |- posb (nsb _ _) = true -> posb (nsb _ ?s1) = true \/ _ =>
+              pose proof (np_upd (sbf cq) s s1 a _ _ Hst ltac:(solve_stacks)) as U; unfold nsb;
+              (let n := fresh "cnt" in set (n := np (sbf cq) s1) in *; clearbody n);
+              cbn [cntf sbf sbj ret_ready ret_pending] in U; rewrite ?cntf_app, ?cntf_opt_wake, ?cntf_wake_frames in U by done;
+              cbn [cntf sbf sbj ret_ready ret_pending] in U;
+              try (match goal with E : jobs _ = _ :: _ |- _ => rewrite E in * end);
+              cbn -[cntb sresb posb setsres]; rewrite ?jobs_setsres; cbn -[cntb sresb posb setsres]; rewrite ?cntb_app; cbn [cntb sbj];
+              rewrite !posb_true; repeat match goal with H : context [sbj ?c ?j] |- _ => destruct (sbj c j) end;
+              repeat case_bool_decide; simplify_eq; try (left; lia) end).
+    all: try (right; rewrite sresb_setstack; apply sresb_set_true; rewrite ?stacks_len_addlog, ?stacks_len_setf, ?stacks_len_addlog;
+              first [exact Hlt|subst cq; by eapply lookup_lt_Some]).
+    all: try (lazymatch goal with |- sresb _ _ = true -> sresb _ _ = true =>
+              rewrite sresb_setstack; intros Hs; change (sresb (addlog ?x _) cq) with (sresb x cq); rewrite sresb_set_ne by done; exact Hs end).
+    all: try (lazymatch goal with |- _ < length _ => rewrite ?stacks_len_addlog, ?stacks_len_setf, ?stacks_len_addlog; first [exact Hlt|subst cq; by eapply lookup_lt_Some] end).
+  Qed.
+End Pres4.
+
+(* ---------- the whole task invariant ---------- *)
+Lemma init_stack_cases scripts npool nev c st : stacks (init scripts npool nev) !! c = Some st -> st = [FPIdle] \/ exists sc, st = [FTop sc].
+Proof.
+  intros Hc. unfold stacks, init in Hc; cbn in Hc. rewrite list_lookup_fmap in Hc.
+  destruct ((((fun sc => mk_actor [FTop sc]) <$> scripts) ++ replicate npool (mk_actor [FPIdle])) !! c) as [ac|] eqn:E; [|done].
+  cbn in Hc. injection Hc as <-. apply elem_of_list_lookup_2 in E. apply elem_of_app in E as [E|E].
+  - apply elem_of_list_fmap in E as (sc & -> & _). right. by exists sc.
+  - apply elem_of_replicate in E as [-> _]. by left.
+Qed.
+Lemma init_task scripts npool nev : Inv_task (init scripts npool nev).
+Proof.
+  split.
+  - intros c st Hc. by destruct (init_stack_cases _ _ _ _ _ Hc) as [->|[sc ->]].
+  - intros c st Hc. by destruct (init_stack_cases _ _ _ _ _ Hc) as [->|[sc ->]].
+  - intros c st fr Hc Hin. apply rn_nonmarker. destruct (init_stack_cases _ _ _ _ _ Hc) as [->|[sc ->]]; by apply elem_of_list_singleton in Hin as ->.
+  - intros f Hf. cbn in Hf. lia.
+Qed.
+Lemma step_task T s a s' : Inv_own s -> Inv_fut s -> Inv_op s -> Inv_task s -> step T s a = Some s' -> Inv_task s'.
+Proof.
+  intros HO HF HP [I1 I4 I2 I3] Hs. split.
+  - by eapply step_task_tw.
+  - by eapply step_task_sb.
+  - by eapply step_task_rn.
+  - by eapply step_task_sig.
+Qed.
